@@ -481,7 +481,9 @@ Inductive bop :=
 | BTagged (s p o : lex) (pr : N)           (* add_tagged_triple: triple in the default graph + seed *)
 | BCreate (g : lex)                        (* dict.encode(g), dataset_index.create_graph(Named(id)) *)
 | BEncode (t : term)                       (* encode_term_star only: a term no quad refers to *)
-| BDelQuad (s p o : term) (g : option lex). (* encode the parts, delete_quad *)
+| BDelQuad (s p o : term) (g : option lex)  (* encode the parts, delete_quad *)
+| BSeed (s p o : term) (pr : N).           (* encode the parts, probability_seeds.insert (public field): a seed
+                                              whose triple need not be asserted anywhere *)
 
 Definition encode3 (s : st) (a b c : term) : res (st * key3) :=
   match encode_term s a with
@@ -554,6 +556,11 @@ Definition bstep (d : db) (o : bop) : res db :=
           | Err e => Err e
           | Ok (s2, gi) => Ok (mkDb s2 (delete_quad (dix d) (mkquad k gi)) (dseeds d))
           end
+      end
+  | BSeed s p o pr =>
+      match encode3 (dst d) s p o with
+      | Err e => Err e
+      | Ok (s1, k) => Ok (mkDb s1 (dix d) ((k, pr) :: dseeds d))
       end
   end.
 
